@@ -492,10 +492,10 @@ func runC13(r *Report, tier string) {
 	iv := P.ivCheck()
 	for _, T := range P.structureTypes() {
 		if D := P.methodOf(T, "UnmarshalCBOR"); D != nil {
-			if sts := P.receiverStores(D); len(sts) == 1 {
+			if sts := P.receiverWrites(D); len(sts) == 1 && sts[0].complete {
 				checkDecoderLayer(r, "R13.2", T.Obj().Name(), sts[0], nil, iv)
 			} else {
-				r.ob("R13.2", T.Obj().Name()+":stored-value", D, nil, "the decoder stores exactly one whole value").fail(fmt.Sprintf("%d stores to the receiver", len(sts)))
+				r.ob("R13.2", T.Obj().Name()+":stored-value", D, nil, "the decoder stores exactly one whole value").fail(fmt.Sprintf("%d assignments to the receiver", len(sts)))
 			}
 		}
 	}
